@@ -274,6 +274,7 @@ class Emitter:
         if ck == 'NullToPointer': return '0'
         if ck in ('DerivedToBase', 'UncheckedDerivedToBase'):
             st = self.ct(sub['type'])
+            if st.kind == 'atomic' or (st.kind == 'ptr' and st.args[0].kind == 'atomic'): return self.ex(sub)
             if st.kind == 'ptr' or sub.get('kind') == 'CXXThisExpr' or self.ct(e['type']).kind == 'ptr':
                 return f"(&({self.ex(sub)})->_base)"
             return f"(({self.ex(sub)})._base)"
@@ -911,7 +912,8 @@ class Emitter:
         if n['kind'] == 'CXXConstructorDecl':
             rec = self.ix.parent[n['id']]
             self.cur_ret = rec['name']
-            body = '{\n  ' + rec['name'] + ' y_obj = ' + self.default_init(rec['name']) + ';\n  ' + rec['name'] + '* self = &y_obj;\n'
+            self.need_dinit.add(rec['name'])
+            body = '{\n  ' + rec['name'] + ' y_obj = ' + rec['name'] + '_dinit();\n  ' + rec['name'] + '* self = &y_obj;\n'
             for ci in [c for c in n.get('inner', []) if c.get('kind') == 'CXXCtorInitializer']:
                 if 'anyInit' not in ci: raise Abort('ctor initializer form')
                 fld = ci['anyInit']['name']
